@@ -104,17 +104,18 @@ def main() -> int:
         meta["needs_to_manifest"] = a.needs
         dest = VERIF / "seeded" / a.seed_id
         dest.mkdir(parents=True, exist_ok=True)
-        shutil.copy(seed / "patch.diff", dest / "patch.diff")
-        shutil.copy(demo, dest / "demo.py")
-        if (seed / "notes.md").exists():
-            shutil.copy(seed / "notes.md", dest / "notes.md")
+        if seed.resolve() != dest.resolve():
+            shutil.copy(seed / "patch.diff", dest / "patch.diff")
+            shutil.copy(demo, dest / "demo.py")
+            if (seed / "notes.md").exists():
+                shutil.copy(seed / "notes.md", dest / "notes.md")
         old = {}
         if (dest / "meta.json").exists():
             old = json.loads((dest / "meta.json").read_text())
             old_checks = old.get("checks", {})
             old_checks.update(verdicts)
             meta["checks"] = old_checks
-            for k in ("suite", "needs_to_manifest"):
+            for k in ("suite", "needs_to_manifest", "change"):
                 if k not in meta or not meta[k]:
                     if k in old:
                         meta[k] = old[k]
